@@ -41,12 +41,26 @@ CHECKS = {
             "Record sizes are realised with root owners and NULL RDATA (self-checked); Message::read/BinDecoder is the reader "
             "for 'no bytes left over'; server path driven through hook H4.",
             "DESIGN.md section 4 C03", "encoder"),
+    "C13": ("model_checking",
+            "TLA+ model of the RFC 8945 server procedure checked by TLC against declarative requirements; TLC-enumerated "
+            "request descriptions x policies replayed (client-side signing, byte-level tampering, real Catalog + "
+            "SqliteZoneHandler, reply fed to TSigVerifier); exhaustive single-bit/byte mutation sweeps judged by a TLA+ monitor",
+            "Exhaustive model check over every request description (signed?, key name, MAC secret, algorithm, MAC length, clock "
+            "offset around the fudge window, 14 tamper kinds) x policy (allow_update, AXFR deny/all/signed); every applicable "
+            "case is concretised and sent through Catalog::handle_request on a virtual clock, the zone/serial/answers observed, "
+            "and every signed reply plus all its single-bit-flipped copies given to the client verifier; every single-bit flip, "
+            "byte deletion and insertion of authentic UPDATE/AXFR requests is sent and classified by region.",
+            "HMAC (ring) trusted; message ID and letter case of the key name are not MAC-covered by design (RFC 8945 4.3.3); "
+            "bytes appended behind the TSIG record and |time-now| = fudge accept either outcome.",
+            "DESIGN.md section 4 C13", "tsig"),
 }
 
 NOT_YET = {
 }
 
 ENGINES = [
+    {"name": "tsig", "path": "spec/Tsig.tla", "serves_properties": ["C13"],
+     "kind_free_text": "TLA+ spec (TsigOps, Tsig, MC_/Gen_/Trace_Tsig) + harness/src/bin/drive_tsig.rs"},
     {"name": "encoder", "path": "spec/Encoder.tla", "serves_properties": ["C03"],
      "kind_free_text": "TLA+ spec (EncoderOps, Encoder, MC_/Gen_/Trace_Encoder) + harness/src/bin/drive_encoder.rs"},
     {"name": "cache", "path": "spec/Cache.tla", "serves_properties": ["C15"],
